@@ -62,7 +62,7 @@ type scenario struct {
 	name    string
 	lcs     []lcSpec
 	actions []action
-	seed    *ring.Desc // initial ring content (e.g. a dead instance)
+	seed    func() *ring.Desc // initial ring content, built inside the bubble (virtual time)
 	horizon time.Duration
 }
 
@@ -214,6 +214,24 @@ func monitor(sc scenario, st *Store, t0 time.Time) (key, what string) {
 			if b.Timestamp < a.Timestamp {
 				return "heartbeat-backwards", fmt.Sprintf("at +%v lifecycler %s moved its heartbeat timestamp from %d back to %d", at, w.Writer, a.Timestamp, b.Timestamp)
 			}
+			if len(a.Tokens) > 0 && !handedOver[w.Writer] {
+				// tokens an entry already holds (inherited from an earlier incarnation, a tokens file or its own join) are
+				// kept as they are: its own writes may add to them or trim them (restart with another count), never
+				// drop or replace them
+				have := map[uint32]bool{}
+				for _, tk := range a.Tokens {
+					have[tk] = true
+				}
+				common := 0
+				for _, tk := range b.Tokens {
+					if have[tk] {
+						common++
+					}
+				}
+				if common != len(a.Tokens) && common != len(b.Tokens) || len(b.Tokens) == 0 {
+					return "tokens-replaced", fmt.Sprintf("at +%v lifecycler %s changed the tokens of its own entry from %v to %v", at, w.Writer, a.Tokens, b.Tokens)
+				}
+			}
 			if a.RegisteredTimestamp != 0 && b.RegisteredTimestamp != a.RegisteredTimestamp {
 				return "registration-changed", fmt.Sprintf("at +%v lifecycler %s changed its registration time from %d to %d while its entry persisted", at, w.Writer, a.RegisteredTimestamp, b.RegisteredTimestamp)
 			}
@@ -268,7 +286,7 @@ func runC08(t *testing.T, sc scenario, ch *sched.Chooser) (res sched.Result) {
 		st.SetCodec(ringKey, ring.GetCodec())
 		st.Conflicts = true
 		if sc.seed != nil {
-			st.Put("seed", ringKey, sc.seed)
+			st.Put("seed", ringKey, sc.seed())
 		}
 		insts := map[string]*instance{}
 		for _, sp := range sc.lcs {
@@ -320,7 +338,11 @@ func runC08(t *testing.T, sc scenario, ch *sched.Chooser) (res sched.Result) {
 				if in.spec.basic {
 					extra = in.spec.observe % hb
 				}
-				if age := time.Since(time.Unix(ent.Timestamp, 0)); age > hb+time.Second+extra {
+				last := time.Unix(ent.Timestamp, 0)
+				if last.Before(t0) {
+					last = t0 // an entry inherited from an earlier incarnation: this process is obliged from its start on
+				}
+				if age := time.Since(last); age > hb+time.Second+extra {
 					fail("heartbeat-late", "at +%v the entry of %s carries a heartbeat %v old although the store accepted every write at once (period %v)", elapsed(), id, age, hb)
 				}
 			}
@@ -457,6 +479,11 @@ func scenariosC08() []scenario {
 		return d
 	}
 	_ = deadSeed
+	joiningSeed := func() *ring.Desc {
+		d := ring.NewDesc()
+		d.Ingesters["a"] = ring.InstanceDesc{Id: "a", Addr: "10.0.0.1:1", Zone: "z", State: ring.JOINING, Timestamp: time.Now().Unix() - 100, Tokens: []uint32{5, 6}, RegisteredTimestamp: time.Now().Unix() - 200}
+		return d
+	}
 	scs := []scenario{
 		{name: "full-join", lcs: []lcSpec{{id: "a", joinAfter: 1500 * time.Millisecond, observe: 2 * time.Second}}, actions: []action{{at: 2 * time.Second, kind: "ready", who: "a"}, {at: 9 * time.Second, kind: "ready", who: "a"}}},
 		{name: "full-join-immediate-two", lcs: []lcSpec{{id: "a"}, {id: "b", joinAfter: 1500 * time.Millisecond}}, actions: []action{{at: 4 * time.Second, kind: "ready", who: "b"}}, horizon: 14 * time.Second},
@@ -470,6 +497,9 @@ func scenariosC08() []scenario {
 		{name: "basic-observe-long", lcs: []lcSpec{{id: "a", basic: true, heartbeat: 3 * time.Second, observe: 3250 * time.Millisecond}, {id: "b", basic: true, heartbeat: 3 * time.Second, observe: 6250 * time.Millisecond}}, horizon: 11 * time.Second},
 		// token hand-over: b leaves (entry kept), a — still pending — claims b's tokens, then finishes joining with them
 		{name: "hand-over", lcs: []lcSpec{{id: "a", joinAfter: 8 * time.Second}, {id: "b"}}, actions: []action{{at: 3 * time.Second, kind: "stop", who: "b"}, {at: 5 * time.Second, kind: "claim", who: "a", arg: "b"}, {at: 10 * time.Second, kind: "ready", who: "a"}}, horizon: 14 * time.Second},
+		// a new incarnation finds its entry JOINING with tokens (the previous one died while joining); it heartbeats as
+		// PENDING (period 3 s) before it joins again (after 4.25 s; the two timers never fall due together): the inherited tokens stay
+		{name: "restart-from-joining", seed: joiningSeed, lcs: []lcSpec{{id: "a", joinAfter: 4250 * time.Millisecond, heartbeat: 3 * time.Second}, {id: "b"}}, actions: []action{{at: 8 * time.Second, kind: "ready", who: "a"}}, horizon: 10 * time.Second},
 		{name: "basic-autoforget", seed: nil, lcs: []lcSpec{{id: "a", basic: true, autoForget: 8 * time.Second}, {id: "b", basic: true}}, actions: []action{{at: 2 * time.Second, kind: "stop", who: "b"}}, horizon: 22 * time.Second},
 		{name: "mixed", lcs: []lcSpec{{id: "a", joinAfter: 1500 * time.Millisecond}, {id: "b", basic: true}}, horizon: 14 * time.Second},
 		{name: "three-joiners", lcs: []lcSpec{{id: "a", joinAfter: 1500 * time.Millisecond}, {id: "b", joinAfter: 1500 * time.Millisecond}, {id: "c", basic: true}}, horizon: 9 * time.Second},
